@@ -160,7 +160,8 @@ PROPS = {
                    "never exceeds the budget; kept statements (loop header, threshold test, break, result) are the real text.",
         level_note="Iteration body abstracted (R6) to an arbitrary deterministic state transformer: holds for every body. "
                    "Floats uninterpreted (same `<`/max in spec and code). NaN/<=0 thresholds never stopping relies on the IEEE "
-                   "facts `x < NaN` is false and bounds >= 0 (C02 harnesses).",
+                   "facts `x < NaN` is false and bounds >= 0 (the cum_regret harnesses, bounded to <= 2 regrets per infoset in the quick tier).",
+        kani_functions=["src/solve/data.rs :: impl RegretParams / fn cum_regret"],
         verus=[
             U("c09_generic_single", ["C09.V.first_below"]),
             U("c09_generic_multi", ["C09.V.first_below"]),
